@@ -28,6 +28,7 @@ type c02RunX struct {
 	fn       *ssa.Function
 	all      []*ssa.Function
 	up       []*ssa.Function
+	ctors    []*ssa.Function // constructors of the state struct called (once) from the functions of up
 	s        *c02Sim
 	sel      *ssa.Select
 	recvMsg  ssa.Value
@@ -149,6 +150,15 @@ func c02NewRunX(c *rt.Ctx) *c02RunX {
 			}
 		}
 	}
+	for _, g := range r.up {
+		for _, in := range an.Instrs(g, false) {
+			if call, ok := in.(*ssa.Call); ok {
+				if al := c02CtorAlloc(call); al != nil {
+					r.ctors = append(r.ctors, al.Parent())
+				}
+			}
+		}
+	}
 	for _, in := range an.Instrs(r.fn, false) {
 		sel, ok := in.(*ssa.Select)
 		if !ok {
@@ -205,6 +215,11 @@ func c02NewRunX(c *rt.Ctx) *c02RunX {
 // inScope: fn is the event-loop function or one of the functions it is called from.
 func (r *c02RunX) inScope(fn *ssa.Function) bool {
 	for _, q := range r.up {
+		if q == fn {
+			return true
+		}
+	}
+	for _, q := range r.ctors {
 		if q == fn {
 			return true
 		}
@@ -282,6 +297,9 @@ func (r *c02RunX) stateCell(pred func(t types.Type) bool, what string) c02Cell {
 	}
 	var ins []ssa.Instruction
 	for _, g := range r.up {
+		ins = append(ins, an.Instrs(g, false)...)
+	}
+	for _, g := range r.ctors {
 		ins = append(ins, an.Instrs(g, false)...)
 	}
 	for _, in := range ins {
@@ -740,6 +758,114 @@ func c02Q5Rule(c *rt.Ctx) {
 	names := []string{"preparedRound", "preparedValue", "preparedJustification"}
 	vars := make([]c02Var, 3)
 	var roundVar c02Var
+	// plainlyWrong: the value is something the rule can name and that is not the wanted one (another state variable,
+	// a constant, the zero value, a value computed by arithmetic, another field of the message); anything else is
+	// merely unreadable
+	plainlyWrong := func(v ssa.Value, f *c02Frame) bool {
+		if s.cellOf(v, f, nil).ok() {
+			return true
+		}
+		x := s.rootOf(v, f, nil)
+		switch y := x.V.(type) {
+		case *ssa.Const:
+			return true
+		case *ssa.BinOp:
+			return true
+		case *ssa.Phi:
+			return x.F == s.root // a register variable of Run
+		case *ssa.Call:
+			if c02CallOfKind(y, "zero") != nil {
+				return true
+			}
+			if y.Call.IsInvoke() && c02Strip(an.TypeName(y.Call.Value.Type())) == c02P+".Msg" {
+				return r.isRecv(y.Call.Value, x.F, nil)
+			}
+		case *ssa.Extract:
+			return y.Tuple == ssa.Value(r.classify)
+		}
+		return false
+	}
+	// an argument may be a local copy of the state variable merged over several paths (`pr := preparedRound; if ... { pr = 0 }`):
+	// its leaves are the values that can arrive, each with the phi edge it arrives on
+	type leaf struct {
+		vf   c02VF
+		phi  *ssa.Phi
+		edge int
+	}
+	leavesOf := func(v ssa.Value, f *c02Frame) []leaf {
+		var out []leaf
+		seen := map[*ssa.Phi]bool{}
+		var walk func(v ssa.Value, f *c02Frame, via *ssa.Phi, edge int)
+		walk = func(v ssa.Value, f *c02Frame, via *ssa.Phi, edge int) {
+			x := s.rootOf(v, f, nil)
+			if p, ok := x.V.(*ssa.Phi); ok && x.F != s.root && len(p.Edges) > 1 {
+				if seen[p] {
+					return
+				}
+				seen[p] = true
+				for i, e := range p.Edges {
+					walk(e, x.F, p, i)
+				}
+				return
+			}
+			out = append(out, leaf{x, via, edge})
+		}
+		walk(v, f, nil, 0)
+		return out
+	}
+	isZeroLeaf := func(l leaf) bool {
+		if c02IsZeroConst(l.vf.V) {
+			return true
+		}
+		call, ok := l.vf.V.(*ssa.Call)
+		return ok && c02CallOfKind(call, "zero") != nil
+	}
+	// unpreparedOn: the phi edge is taken only when a test found one of the prepared variables (cands) zero/empty — by
+	// all-or-none the three variables are then all zero and sending a literal zero is sending the variable
+	unpreparedOn := func(l leaf, f *c02Frame, cands map[c02Var]bool) bool {
+		if l.phi == nil {
+			return false
+		}
+		child := l.phi.Block()
+		cur := l.phi.Block().Preds[l.edge]
+		for n := 0; n < 6 && cur != nil; n++ {
+			if iff, ok := cur.Instrs[len(cur.Instrs)-1].(*ssa.If); ok {
+				branch := -1
+				for i, sc := range cur.Succs {
+					if sc == child {
+						if branch >= 0 {
+							branch = -2
+						} else {
+							branch = i
+						}
+					}
+				}
+				if bin, ok := iff.Cond.(*ssa.BinOp); ok && branch >= 0 && (bin.Op == token.EQL || bin.Op == token.NEQ) {
+					x, y := bin.X, bin.Y
+					if c02IsZeroConst(s.rootOf(x, l.vf.F, nil).V) {
+						x, y = y, x
+					}
+					if c02IsZeroConst(s.rootOf(y, l.vf.F, nil).V) {
+						if call, ok := x.(*ssa.Call); ok {
+							if bi, isB := call.Call.Value.(*ssa.Builtin); isB && bi.Name() == "len" && len(call.Call.Args) == 1 {
+								x = call.Call.Args[0]
+							}
+						}
+						if cv := r.varOf(x, l.vf.F); cv.ok() && cands[cv] {
+							if (bin.Op == token.EQL) == (branch == 0) {
+								return true
+							}
+						}
+					}
+				}
+			}
+			if len(cur.Preds) != 1 {
+				return false
+			}
+			child, cur = cur, cur.Preds[0]
+		}
+		return false
+	}
 	for _, b := range rcs {
 		a := b.ci.Common().Args
 		pos := r.topSite(b.f, b.ci)
@@ -747,11 +873,50 @@ func c02Q5Rule(c *rt.Ctx) {
 		if !roundVar.ok() {
 			roundVar = rv
 		}
+		// the state variables read by the three arguments on any path
+		cands := map[c02Var]bool{}
+		lvs := make([][]leaf, 3)
 		for i := 0; i < 3; i++ {
-			v := r.varOf(a[6+i], b.f)
+			lvs[i] = leavesOf(a[6+i], b.f)
+			for _, l := range lvs[i] {
+				if cv := r.varOf(l.vf.V, l.vf.F); cv.ok() && cv != rv {
+					cands[cv] = true
+				}
+			}
+		}
+		for i := 0; i < 3; i++ {
 			key := "Run ROUND-CHANGE carries " + names[i]
-			if !v.ok() {
-				c.Bad(key, pos, "the ROUND-CHANGE broadcast does not send the "+names[i]+" state variable")
+			var v c02Var
+			wrong, unknown, mixed := "", false, false
+			for _, l := range lvs[i] {
+				lv := r.varOf(l.vf.V, l.vf.F)
+				switch {
+				case lv.ok():
+					if v.ok() && v != lv {
+						mixed = true
+					}
+					v = lv
+				case isZeroLeaf(l) && unpreparedOn(l, b.f, cands):
+					// literal zero sent only while nothing is prepared
+				case plainlyWrong(l.vf.V, l.vf.F):
+					if l.phi != nil {
+						wrong = "on some path the ROUND-CHANGE broadcast sends another value (a constant, the zero value, a computed value) in place of the " + names[i] + " state variable although it may be set"
+					} else {
+						wrong = "the ROUND-CHANGE broadcast does not send the " + names[i] + " state variable (a ROUND-CHANGE that claims another prepared certificate than the one held removes the value lock)"
+					}
+				default:
+					unknown = true
+				}
+			}
+			switch {
+			case wrong != "":
+				c.Bad(key, pos, wrong)
+				continue
+			case mixed:
+				c.Bad(key, pos, "the ROUND-CHANGE broadcast sends different state variables as "+names[i]+" depending on the path")
+				continue
+			case unknown || !v.ok():
+				c.Unsure(key, pos, "the value sent as "+names[i]+" could not be related to a state variable of the instance")
 				continue
 			}
 			if v == rv {
@@ -864,30 +1029,6 @@ func c02Q5Rule(c *rt.Ctx) {
 	}
 	nAssign := make([]int, 3)
 	pos0 := token.NoPos
-	// plainlyWrong: the value is something the rule can name and that is not the wanted one (another state variable,
-	// a constant, the zero value, another field of the message); anything else is merely unreadable
-	plainlyWrong := func(v ssa.Value, f *c02Frame) bool {
-		if s.cellOf(v, f, nil).ok() {
-			return true
-		}
-		x := s.rootOf(v, f, nil)
-		switch y := x.V.(type) {
-		case *ssa.Const:
-			return true
-		case *ssa.Phi:
-			return x.F == s.root // a register variable of Run
-		case *ssa.Call:
-			if c02CallOfKind(y, "zero") != nil {
-				return true
-			}
-			if y.Call.IsInvoke() && c02Strip(an.TypeName(y.Call.Value.Type())) == c02P+".Msg" {
-				return r.isRecv(y.Call.Value, x.F, nil)
-			}
-		case *ssa.Extract:
-			return y.Tuple == ssa.Value(r.classify)
-		}
-		return false
-	}
 	note := func(i int, pos token.Pos, isOutside, valueOK, plainWrong bool) {
 		nAssign[i]++
 		if !pos0.IsValid() {
@@ -905,6 +1046,7 @@ func c02Q5Rule(c *rt.Ctx) {
 			c.Good(key, pos, "set to "+wantTxt[i])
 		}
 	}
+	visitedStore := map[*ssa.Store]bool{}
 	r.eachInstr(func(in ssa.Instruction, f *c02Frame) {
 		i := cellIdx(in)
 		if i < 0 {
@@ -915,8 +1057,37 @@ func c02Q5Rule(c *rt.Ctx) {
 		if f == s.root {
 			pos = posOf(in)
 		}
+		visitedStore[st] = true
 		note(i, pos, outside[in], want[i](st.Val, f), plainlyWrong(st.Val, f))
 	})
+	// writes of the variables in functions the exploration never enters (deferred or indirectly called literals, helpers
+	// reached through function values): they cannot be placed in the quorum-prepares branch
+	for i, v := range vars {
+		if !v.cell.ok() {
+			continue
+		}
+		for _, st := range c02CellStores(v.cell) {
+			if visitedStore[st] || st.Parent() == nil {
+				continue
+			}
+			isCtor := false
+			for _, g := range r.ctors {
+				if st.Parent() == g {
+					isCtor = true
+				}
+			}
+			if isCtor {
+				continue
+			}
+			key := "Run " + names[i] + " written only in the quorum-prepares branch"
+			nAssign[i]++
+			if c02IsZeroConst(st.Val) || c02CallOfKind(st.Val, "zero") != nil {
+				c.Bad(key, posOf(st), names[i]+" is reset in "+strings.TrimPrefix(an.FuncName(st.Parent()), c02P+".")+", a function run outside the UponQuorumPrepares branch (deferred or indirectly called): later ROUND-CHANGEs claim nothing was prepared")
+			} else {
+				c.Unsure(key, posOf(st), names[i]+" is written in "+strings.TrimPrefix(an.FuncName(st.Parent()), c02P+".")+", which the exploration of the event loop does not enter")
+			}
+		}
+	}
 	for i := range vars {
 		for _, wa := range webAssigns[i] {
 			pos := posOf(wa.from.Instrs[len(wa.from.Instrs)-1])
